@@ -34,7 +34,7 @@ RULE = (
     "SSE: pre-events, CRLF, cuts, position of the 202) latencies across poll boundaries and the three tie orders of the virtual-time loop (events, timers, io). Each conversation is run "
     "on every real carrier able to express it; compared: carrier vs carrier, carrier vs scripted conversation, "
     "carrier vs the four Lean model pipelines (driver `carrier`, alternately on the very bytes the server wrote and on "
-    "the model's own encoding). non-trivial = distinct conversation with at least one exchange"
+    "the model's own encoding). conversations whose server texts exceed 30000 characters in total (the >= 64 KiB / >= 1 MiB cases) are judged by the model-free oracle only (carrier vs carrier vs script), not by the Lean pipelines; a model pipeline that gives no answer for a case is a machinery error (exit 2), never a divergence. non-trivial = distinct conversation with at least one exchange"
 )
 TRUSTED = [
     "the carrier models as tied to the code by the checks C05, C11, C12 (inbound pipelines), C17, C02 (codec), C01 (helpers)",
@@ -77,6 +77,36 @@ def has_float(v):
         return any(has_float(x) for x in v)
     if isinstance(v, dict):
         return any(has_float(x) for x in v.values())
+    return False
+
+
+def of_py(v):
+    """Python value -> the PLAIN transport form `Drv.Json.toModel` reads (strings always as code-point
+    arrays; the compact nodes `json_h.of_py` emits for very long / deep values belong to C17's driver op)"""
+    if v is None or v is True or v is False:
+        return v
+    if isinstance(v, int):
+        return {"i": v}
+    if isinstance(v, float):
+        return {"f": v.hex()}
+    if isinstance(v, str):
+        return {"s": [ord(c) for c in v]}
+    if isinstance(v, (list, tuple)):
+        return {"a": [of_py(x) for x in v]}
+    if isinstance(v, dict):
+        return {"o": [[[ord(c) for c in k], of_py(x)] for k, x in v.items()]}
+    raise TypeError(f"not a JSON value: {type(v).__name__}")
+
+
+DRIVER_FAILURES = []
+
+
+def driver_failed(out):
+    """a model pipeline that gives no answer for a case is a failure of the machinery (exit 2, raised in
+    `extra`), never a divergence between model and code: the case is then judged by the oracle only"""
+    if isinstance(out, dict) and "driver_error" in out:
+        DRIVER_FAILURES.append(str(out["driver_error"])[:300])
+        return True
     return False
 
 
@@ -230,10 +260,10 @@ class Conversations(Suite):
             if text_mode:
                 return {"k": "text", "t": J.cps(ref["texts"][k][i])}
             if "method" in m:
-                return {"k": "notif", "method": J.cps(m["method"]), "params": J.of_py(m["params"]) if "params" in m else None}
+                return {"k": "notif", "method": J.cps(m["method"]), "params": of_py(m["params"]) if "params" in m else None}
             if "error" in m:
-                return {"k": "err", "id": tid(m["id"]), "error": J.of_py(m["error"])}
-            return {"k": "resp", "id": tid(m["id"]), "result": J.of_py(m["result"])}
+                return {"k": "err", "id": tid(m["id"]), "error": of_py(m["error"])}
+            return {"k": "resp", "id": tid(m["id"]), "result": of_py(m["result"])}
 
         conv = []
         for k, x in enumerate(xs):
@@ -282,6 +312,9 @@ class Conversations(Suite):
         return line
 
     def model_obs(self, out, case):
+        if driver_failed(out):
+            return {"driver_failed": True}
+
         def entry(v):
             if v.get("made"):
                 return {"made": True}
@@ -296,6 +329,8 @@ class Conversations(Suite):
         return {c: (None if out.get(k) is None else [entry(v) for v in out[k]]) for c, k in key.items()} | {"bodies_ok": out.get("bodies_ok")}
 
     def compare(self, case, obs, m):
+        if m.get("driver_failed"):
+            return None
         if m.get("bodies_ok") is False:
             return "generated SSE body choices are not conformant in the model's sense"
         for c in PAIR_ORDER:
@@ -433,7 +468,7 @@ class Clients(Conversations):
         return {"m": "mcpclient", "connect": bool(case.get("connect")), "ops": [o["op"] for o in case["ops"]], "inits": inits, "calls": calls}
 
     def model_obs(self, out, case):
-        return out
+        return {"driver_failed": True} if driver_failed(out) else out
 
     @staticmethod
     def shape_of(case, o):
@@ -457,6 +492,8 @@ class Clients(Conversations):
         return kinds, trace, sets
 
     def compare(self, case, obs, m):
+        if m.get("driver_failed"):
+            return None
         want_kinds = [r["k"] for r in m["results"]]
         want_reqs = [e for e in m["trace"] if "req" in e]
         want_sets = [e["set"] for e in m["trace"] if "set" in e]
@@ -536,8 +573,11 @@ class Detection(Suite):
     def model_line(self, case, obs=None):
         return D.model_line(case, obs)
 
+    def model_obs(self, out, case):
+        return {"driver_failed": True} if driver_failed(out) else out
+
     def compare(self, case, obs, m):
-        if obs.get("harness_error"):
+        if obs.get("harness_error") or m.get("driver_failed"):
             return None
         if m.get("translatable") is False:
             _SUITE.feats = _SUITE.feats or __import__("collections").Counter()
@@ -577,5 +617,9 @@ def extra(ctx, tier):
     for f, n in sorted((_SUITE.feats or {}).items()):
         ctx.dist["feat:" + f] += n   # coverage of branches / kinds, so that gaps are visible
     _SUITE.feats = None
+    if DRIVER_FAILURES:
+        n, first = len(DRIVER_FAILURES), DRIVER_FAILURES[0]
+        del DRIVER_FAILURES[:]
+        raise RuntimeError(f"verif-driver gave no answer for {n} case(s) (first: {first}): no model verdict for them")
     if _SUITE.harness_errors:
         raise RuntimeError(f"C15 harness failed on {_SUITE.harness_errors} case(s): no verdict for them")
